@@ -103,43 +103,59 @@ func c06Line(w *bufio.Writer, max int, cut, skip bool, base int, bufSize int, ap
 	w.WriteByte('\n')
 }
 
+type c06Mode struct {
+	max       int
+	cut, skip bool
+}
+
+// limit modes of the exhaustive scope: off; skip / cut with a limit inside the scope's line
+// lengths (so lines below, at and above the limit all occur); limit 1 (every non-empty line is
+// over); shouldSkip starts
+var c06Modes = []c06Mode{
+	{0, false, false}, {2, false, false}, {2, true, false}, {1, true, false},
+	{3, false, true}, {3, true, true}, {0, false, true}, {1, false, false},
+}
+
 func genC06(w *bufio.Writer, rng *hx.Rng, tier string) {
 	alpha := []byte{'a', 'b', '\n'}
-	maxLen, nrand := 6, 1500
+	// maxLen: longest exhaustive content; allModes: up to this length every case is run in every
+	// limit mode (longer contents rotate through the modes); pairLen: up to this length every
+	// pair of append points is enumerated too
+	maxLen, allModes, pairLen, nrand, nstraddle := 6, 5, 4, 1500, 1500
 	if tier == "thorough" {
-		maxLen, nrand = 8, 40000
+		maxLen, allModes, pairLen, nrand, nstraddle = 8, 7, 6, 40000, 40000
 	}
-	// exhaustive small scope: every content over {a,b,\n} up to maxLen, every buffer size,
-	// every single append point; limits 0 (off) / 2 skip / 2 cut rotate with the content index
 	idx := 0
+	emitModes := func(n int, buf int, apps [][]byte) {
+		if n <= allModes {
+			for _, m := range c06Modes {
+				c06Line(w, m.max, m.cut, m.skip, 0, buf, apps)
+			}
+			return
+		}
+		m := c06Modes[idx%len(c06Modes)]
+		idx++
+		c06Line(w, m.max, m.cut, m.skip, 0, buf, apps)
+	}
 	var rec func(cur []byte)
 	emit := func(content []byte) {
-		for buf := 1; buf <= len(content)+1 && buf <= maxLen; buf++ {
-			for cutAt := 0; cutAt <= len(content); cutAt++ {
-				if cutAt != 0 && cutAt != len(content) && (idx+cutAt)%2 == 1 && tier != "thorough" {
+		n := len(content)
+		for buf := 1; buf <= n+1 && buf <= maxLen; buf++ {
+			// one turn, and every single append point (quick: every second one for the longest contents)
+			emitModes(n, buf, [][]byte{content})
+			for cutAt := 1; cutAt < n; cutAt++ {
+				if n > allModes && tier != "thorough" && (idx+cutAt)%2 == 1 {
 					continue
 				}
-				var apps [][]byte
-				if cutAt == 0 || cutAt == len(content) {
-					if cutAt == 0 {
-						apps = [][]byte{content}
-					} else {
-						continue
+				emitModes(n, buf, [][]byte{content[:cutAt], content[cutAt:]})
+			}
+			if n <= pairLen {
+				for i := 1; i < n; i++ {
+					for j := i + 1; j < n; j++ {
+						m := c06Modes[idx%len(c06Modes)]
+						idx++
+						c06Line(w, m.max, m.cut, m.skip, 0, buf, [][]byte{content[:i], content[i:j], content[j:]})
 					}
-				} else {
-					apps = [][]byte{content[:cutAt], content[cutAt:]}
-				}
-				mode := idx % 5
-				idx++
-				switch mode {
-				case 0, 1:
-					c06Line(w, 0, false, false, 0, buf, apps)
-				case 2:
-					c06Line(w, 2, false, false, 0, buf, apps)
-				case 3:
-					c06Line(w, 2, true, false, 0, buf, apps)
-				case 4:
-					c06Line(w, 3, idx%2 == 0, true, 0, buf, apps)
 				}
 			}
 		}
@@ -156,6 +172,51 @@ func genC06(w *bufio.Writer, rng *hx.Rng, tier string) {
 		}
 	}
 	rec(nil)
+	// straddle stream: small limits, buffers around the limit, line lengths from just under the
+	// limit to several buffers beyond it, so that in cut mode the accumulated prefix is truncated
+	// and overwritten several times before the newline arrives, and in skip mode accumulation
+	// stops mid-line; appends fall anywhere (also inside an over-long line)
+	for i := 0; i < nstraddle; i++ {
+		max := rng.Range(1, 9)
+		buf := rng.Range(1, max+3)
+		nlines := rng.Range(1, 6)
+		var content []byte
+		for l := 0; l < nlines; l++ {
+			var n int
+			switch rng.Intn(4) {
+			case 0:
+				n = rng.Range(0, max) // fits (with its newline at most max+1: the boundary)
+			case 1:
+				n = rng.Range(max-1, max+1)
+				if n < 0 {
+					n = 0
+				}
+			case 2:
+				n = rng.Range(max, max+2*buf+1)
+			default:
+				n = rng.Range(max+buf, max+5*buf+3)
+			}
+			content = append(content, rng.Bytes(n, []byte("abcdefgh"))...)
+			content = append(content, '\n')
+		}
+		if rng.Chance(1, 2) {
+			content = append(content, rng.Bytes(rng.Range(1, max+2*buf), []byte("xyz"))...)
+		}
+		nApp := rng.Range(1, 4)
+		var apps [][]byte
+		rest := content
+		for a := 0; a < nApp-1 && len(rest) > 1; a++ {
+			k := rng.Range(1, len(rest)-1)
+			apps = append(apps, rest[:k])
+			rest = rest[k:]
+		}
+		apps = append(apps, rest)
+		base := 0
+		if rng.Chance(1, 4) {
+			base = rng.Range(1, 20)
+		}
+		c06Line(w, max, rng.Chance(2, 3), rng.Chance(1, 8), base, buf, apps)
+	}
 	// random: longer contents, line lengths around the limits, several appends, resume offsets
 	wide := []byte("abcdefghij \t{}\"\\\r\x00\xff")
 	for i := 0; i < nrand; i++ {
